@@ -161,17 +161,6 @@ theorem gc_never_stops_xr_or_revision_watch {ops : List Op} {s s' : Sys} (h : Re
 
 /-! ### restart after informer loss -/
 
-theorem reachable_of_runThread {cfg : Cfg} {ops : List Op} {s s' : Sys} {i k : Nat}
-    (hs : Reachable cfg ops s) (h : runThread cfg s i k = some s') : Reachable cfg ops s' := by
-  induction k generalizing s with
-  | zero => simp only [runThread, Option.some.injEq] at h; exact h ▸ hs
-  | succ k ih =>
-    simp only [runThread] at h
-    split at h
-    · rename_i s1 h1
-      exact ih (Reachable.step i {} hs h1) h
-    · cases h
-
 /-- A watch lost with its informer is re-established by the next start request — for a
 request that runs without interference: take any reachable state in which a `StartWatches n ws`
 call has not begun, controller `n` runs, and no other goroutine holds a lock (others may be
@@ -205,18 +194,6 @@ theorem restart_after_informer_loss {ops : List Op} {s : Sys} (h : Reachable Cfg
 
 def cW (g : Nat) : Wid := ⟨.composed, g⟩
 def rep (i k : Nat) : List (Nat × Choice) := List.replicate k (i, {})
-
-theorem reachable_of_runSched {cfg : Cfg} {ops : List Op} {s s' : Sys} {sched : List (Nat × Choice)}
-    (hs : Reachable cfg ops s) (h : runSched cfg s sched = some s') : Reachable cfg ops s' := by
-  induction sched generalizing s with
-  | nil => simp only [runSched, Option.some.injEq] at h; exact h ▸ hs
-  | cons p rest ih =>
-    obtain ⟨i, ch⟩ := p
-    simp only [runSched] at h
-    split at h
-    · rename_i s1 h1
-      exact ih (Reachable.step i ch hs h1) h
-    · cases h
 
 /-- D2, concurrent form: two StartWatches calls for the same watch; the second takes its
 ActiveInformers snapshot while the first is inside GetInformer. -/
@@ -350,6 +327,15 @@ example : ∃ s, Reachable Cfg.fixed
       (rep 0 3 ++ rep 1 3 ++ rep 2 12 ++ rep 3 10 ++ rep 4 5)).map (fun s => (s.regs.length, s.ctrls.length)) = some (3, 2) := by decide
   rw [hs] at hst
   simpa using hst
+
+/-- restart after informer loss, concretely: a controller with two watches (XR and composed) on
+one kind loses the informer; one StartWatches call re-establishes both on the new informer
+(generation 1), none is skipped because the other one re-created the informer -/
+example : (runSched Cfg.fixed
+      (init [.start 0, .startWatches 0 [⟨.xr, 0⟩, cW 0], .removeInformer 0, .startWatches 0 [⟨.xr, 0⟩, cW 0]])
+      (rep 0 3 ++ rep 1 12 ++ rep 2 1 ++ rep 3 12)).map
+    (fun s => (s.regs.map (fun r => (r.wid, r.gen)), s.threads.map (·.pc))) =
+    some ([(cW 0, 1), (⟨.xr, 0⟩, 1)], [.done .ok, .done .ok, .done .ok, .done .ok]) := by decide
 
 /-- the D2 schedule is not a run of the fixed engine's model at all: the second call re-reads the
 active informers under the lock, finds the kind active, and does not start a second source -/
